@@ -23,3 +23,19 @@ def run(name, cases, timeout=1800, exe_name="velaverif"):
     if len(out) != len(cases):
         raise RuntimeError("model %s: %d results for %d cases" % (name, len(out), len(cases)))
     return [[int(t) for t in l.split()] for l in out]
+
+
+def run_parallel(name, cases, timeout=3600, exe_name="velaverif", workers=None):
+    """same as run() but the cases are dealt round-robin to several model processes"""
+    import concurrent.futures
+    workers = min(workers or vlib.NCPU, max(1, len(cases)))
+    if workers <= 1:
+        return run(name, cases, timeout, exe_name)
+    chunks = [cases[i::workers] for i in range(workers)]
+    with concurrent.futures.ThreadPoolExecutor(max_workers=workers) as ex:
+        outs = list(ex.map(lambda c: run(name, c, timeout, exe_name) if c else [], chunks))
+    res = [None] * len(cases)
+    for w, o in enumerate(outs):
+        for j, x in enumerate(o):
+            res[w + j * workers] = x
+    return res
